@@ -1554,10 +1554,10 @@ theorem execute_post (fuel m : Nat) (s : State) (h : WFS s) (input : List UInt8)
   obtain ⟨s1, r⟩ := p
   dsimp only
   split
-  · exact ⟨g.wf, g.ext, g.roots, noPanic_ps _⟩
+  · exact ⟨⟨g.wf.vm, g.wf.sc⟩, g.ext, g.roots, noPanic_ps _⟩
   · exact ⟨⟨g.wf.vm, g.wf.sc⟩, g.ext, g.roots, noPanic_ok⟩
   · exact ⟨⟨g.wf.vm, g.wf.sc⟩, g.ext, g.roots, noPanic_ok⟩
-  · exact ⟨g.wf, g.ext, g.roots, g.nopanic⟩
+  · exact ⟨⟨g.wf.vm, g.wf.sc⟩, g.ext, g.roots, g.nopanic⟩
 
 end PsVerif.Proofs.WFState
 
